@@ -424,6 +424,9 @@ func (fc *FnCtx) specCall(env *Env, e *Expr) Val {
 		}
 	case "P":
 		return mathInt(mkP(arg(0).T))
+	case "pow2":
+		// 2^k for 0 <= k < 64 (the same case table the generator uses for variable shifts)
+		return mathInt(fc.pow2Term(arg(0).T, 64))
 	case "P2":
 		return mathInt(mkP2(arg(0).T))
 	case "p10":
@@ -466,6 +469,11 @@ func (fc *FnCtx) specCall(env *Env, e *Expr) Val {
 	case "gosame": // stdlib.go same()
 		a, b := fc.specSliceArg(env, e.Args[0]), fc.specSliceArg(env, e.Args[1])
 		return boolVal(mkAnd(mkEq(a.Len, b.Len), mkGt(a.Len, mkI(0)), mkEq(a.Arr, b.Arr), mkEq(a.Off, b.Off)))
+	case "deref":
+		// deref(p): the slice a pointer to a slice type points to
+		if v, ok := fc.loadSlicePtr(env.heap, arg(0)); ok {
+			return v
+		}
 	case "fresh":
 		v := arg(0)
 		if env.nalloc0 == nil {
